@@ -105,6 +105,10 @@ def check(ctx):
             elif op < 0.7 and s: s = s[:i] + s[i + 1:]
             else: s = s[:i] + rng.choice(muts) + s[i + 1:]
         texts.append(s)
+    # a well-formed text followed or preceded by white space, a line end, a tab (none of these is a NodeId)
+    for b_ in ("i=35", "ns=2;i=35", "i=0", "ns=1;i=7"):
+        for w_ in ("\n", " ", "\r\n", "\t", "\n\n", "\x0b", "\x0c"):        # (ASCII white space: the model's strings are bytes)
+            texts += [b_ + w_, w_ + b_, b_.replace("=", "=" + w_, 1)]
     for s in texts: cases.append(("txt", s))
 
     # ---- run implementation
